@@ -108,9 +108,14 @@ def build_query(eng, o):
     return base + extra + T.str_lit_axioms()
 
 
-def check_z3(fs, timeout_ms):
+def check_z3(fs, timeout_ms, variant=0):
     s = z3.Solver()
     s.set('timeout', timeout_ms)
+    if variant:
+        # second configuration for the retry: other random seed and the older simplex core (verdicts of a decision
+        # procedure do not depend on these; only whether it finishes within the budget does)
+        s.set('random_seed', 7 * variant)
+        s.set('arith.solver', 2)
     for f in fs:
         s.add(f)
     t0 = time.time()
@@ -163,7 +168,15 @@ def check_cvc5(solver, timeout_s):
 def discharge(eng, o, timeout_ms=10000, use_cvc5=True, cross_check=False):
     """-> dict(verdict, backend, time_s, model)"""
     fs = build_query(eng, o)
-    r, model, dt, reason, solver = check_z3(fs, timeout_ms)
+    # a quarter of the budget first, then another configuration, then the full budget: an unstable query costs less
+    # and is decided more often than with one long attempt
+    r, model, dt, reason, solver = check_z3(fs, max(1000, timeout_ms // 4))
+    if r == 'unknown' and 'invalid sat' not in reason:
+        r, model, dt1, reason, solver = check_z3(fs, max(1000, timeout_ms // 4), variant=1)
+        dt += dt1
+        if r == 'unknown' and 'invalid sat' not in reason:
+            r, model, dt1, reason, solver = check_z3(fs, timeout_ms)
+            dt += dt1
     res = dict(z3=r, time_s=dt, backend='z3', model=model, reason=reason)
     if r == 'unknown' and use_cvc5:
         r2, dt2 = check_cvc5(solver, timeout_ms / 1000.0)
@@ -217,7 +230,7 @@ class Incremental:
 
     def _reset(self, o):
         self.solver = z3.Solver()
-        self.solver.set('timeout', min(self.timeout_ms, 4000))
+        self.solver.set("timeout", min(self.timeout_ms, 1500))
         for f in T.str_lit_axioms():
             self.solver.add(f)
         self.path = o.path
@@ -225,6 +238,7 @@ class Incremental:
         self.ax_ids = []
         self.seen = set()
         self.done = set()
+        self.pending = []
 
     def discharge(self, o):
         if o.expect_sat:
@@ -242,13 +256,21 @@ class Incremental:
         self.pc_ids, self.ax_ids = pc_ids, ax_ids
         t0 = time.time()
         goal = z3.Not(o.cond)
-        # unfoldings of recursive spec functions occurring anywhere in the query (facts: may stay asserted)
-        for ax in instantiate(self.eng, new + [goal], seen=self.seen, done=self.done):
-            self.solver.add(ax)
+        # first without new unfoldings of recursive spec functions (fewer facts: `unsat` is still a proof) ...
+        self.pending.extend(new)
         self.solver.push()
         self.solver.add(goal)
         r = self.solver.check()
         self.solver.pop()
+        if r != z3.unsat:
+            # ... then with the unfoldings for everything in the query (facts: they stay asserted)
+            for ax in instantiate(self.eng, self.pending + [goal], seen=self.seen, done=self.done):
+                self.solver.add(ax)
+            self.pending = []
+            self.solver.push()
+            self.solver.add(goal)
+            r = self.solver.check()
+            self.solver.pop()
         dt = time.time() - t0
         if r == z3.unsat:
             return dict(z3='unsat', time_s=dt, backend='z3', model=None, reason='', raw='unsat', verdict='proved')
